@@ -404,8 +404,43 @@ def like_deck(rnd, scenario, nsym=3):
         d.cells.append(dk.Cell(4, ('and', ('s', 2), ('s', -3)), imp=1, fill=1,
                                filltr=rand_tr(rnd, 'g', pre, budget=bud, rot=False)))
         d.cells.append(dk.Cell(5, ('or', ('and', ('s', 1), ('s', -2)), ('s', 3)), imp=0))
+    elif scenario == 'u0':
+        # the copied cell lives in a universe, the copy is taken out of it (U=0) and moved aside
+        d.surfs = [dk.Surf(1, 'so', [Fr(5)]), dk.Surf(2, 's', [Fr(0), Fr(0), Fr(0), r])]
+        d.cells.append(dk.Cell(1, ('s', -1), imp=1, fill=1))
+        m, rho = mat()
+        d.cells.append(dk.Cell(2, ('s', -2), mat=m, rho=rho, imp=1, u=1))
+        d.cells.append(dk.Cell(3, ('s', 2), imp=1, u=1))
+        b = but_random(['mat', 'rho'])
+        b['u'] = 0
+        b['trcl'] = [Fr(rnd.choice([8, 9])), bud.num('k1', pre, choices=[0, 1]), Fr(0)]
+        d.cells.append(dk.Cell(4, like=2, but=b))
+        if rnd.random() < 0.5:
+            d.cells.append(dk.Cell(5, like=4, but={'trcl': [Fr(-8), Fr(0), bud.num('k2', pre, choices=[0, 1])]}))      # LIKE of LIKE keeps U=0
+            d.cells.append(dk.Cell(6, ('and', ('s', 1), ('cell', 4), ('cell', 5)), imp=0))
+        else:
+            d.cells.append(dk.Cell(5, ('and', ('s', 1), ('cell', 4)), imp=0))
     else:
         raise ValueError(scenario)
+    if scenario in ('level0', 'chain') and rnd.random() < 0.35:
+        # the copied cell has a *TRCL (angles in degrees); the copy overrides it with a plain TRCL given in full
+        base_c = d.cells[0]
+        # half a sphere instead of a sphere: a rotation of the copy must be visible
+        d.surfs.append(dk.Surf(2, 'px', [Fr(1, 4)]))
+        base_c.expr = ('and', ('s', -1), ('s', 2))
+        base_c.trcl = [Fr(rnd.choice([0, 1])), Fr(0), Fr(0)] + [Fr(a_) for a_ in rnd.choice([[0, 90, 90, 90, 0, 90, 90, 90, 0], [90, 0, 90, 180, 90, 90, 90, 90, 0]])]
+        base_c.trclstar = True
+        for c in d.cells:
+            if c.like is not None and 'trcl' in c.but and len(c.but['trcl']) == 3:
+                c.but['trcl'] = list(c.but['trcl']) + list(rnd.choice(_rot.quick_set()[1:4])[1])
+    if not any(c.like is not None and 'imp' in c.but for c in d.cells) and rnd.random() < 0.3:
+        # importances on an IMP data card: a LIKE card takes the entry at its OWN position in the cell block
+        vals = [Fr(rnd.choice([1, 0, 2, 1])) for _ in d.cells]
+        vals[-1] = Fr(0)
+        for c in d.cells:
+            c.imp = None
+        d.imp_cards['n'] = list(vals)
+        d.imp_ref = {'n': list(vals)}
     return d, pre
 
 
